@@ -396,3 +396,76 @@ def rule_typedisc(ctx, prop: str) -> RuleResult:
     need(_err_guard(init.node, "_M_a & _M_b != set()"), init, "config-write-loop-invariant", "configuration writes must not depend on loop iterators")
     res.floor = 18
     return res
+
+
+def rule_optpred(ctx, prop: str) -> RuleResult:
+    """Effects carry an optional predicate: `None` means "unconditional" (true).  The two
+    combinators of the bounds checker must respect that reading —
+        and(None, p) = p      and(p, None) = p      and(None, None) = None
+        or(None, p)  = None   or(p, None)  = None   or(None, None)  = None
+    Each function's return expression is evaluated symbolically for the four cases of
+    (a is None, b is None)."""
+    ix = ctx.ix
+    res = RuleResult("OPTPRED")
+    spec = {
+        "_and_preds": {(True, True): "None", (True, False): "b", (False, True): "a", (False, False): "op"},
+        "_or_preds": {(True, True): "None", (True, False): "None", (False, True): "None", (False, False): "op"},
+    }
+
+    def ev(e: ast.AST, env) -> str:
+        """symbolic value: 'None' | 'a' | 'b' | 'op'"""
+        if isinstance(e, ast.Constant) and e.value is None:
+            return "None"
+        if isinstance(e, ast.Name) and e.id in env["params"]:
+            return "None" if env[e.id] else ("a" if e.id == env["params"][0] else "b")
+        if isinstance(e, ast.IfExp):
+            return ev(e.body if truth(e.test, env) else e.orelse, env)
+        if isinstance(e, ast.Call):
+            return "op"
+        raise AnalysisError(f"OPTPRED: unrecognised expression `{ast.unparse(e)[:60]}`")
+
+    def truth(t: ast.AST, env) -> bool:
+        if isinstance(t, ast.BoolOp):
+            vals = [truth(v, env) for v in t.values]
+            return all(vals) if isinstance(t.op, ast.And) else any(vals)
+        if isinstance(t, ast.UnaryOp) and isinstance(t.op, ast.Not):
+            return not truth(t.operand, env)
+        if isinstance(t, ast.Compare) and len(t.ops) == 1 and isinstance(t.comparators[0], ast.Constant) and t.comparators[0].value is None and isinstance(t.left, ast.Name):
+            isnone = env[t.left.id]
+            return isnone if isinstance(t.ops[0], ast.Is) else (not isnone)
+        raise AnalysisError(f"OPTPRED: unrecognised test `{ast.unparse(t)[:60]}`")
+
+    for fn, table in spec.items():
+        f = ix.func(B, fn)
+        res.analysed.append(f"{B}:{fn}")
+        ps = f.params()
+        rets = [n for n in f.body_nodes() if isinstance(n, ast.Return)]
+        if len(ps) != 2 or len(rets) != 1 and not any(isinstance(n, ast.If) for n in f.body_nodes()):
+            raise AnalysisError(f"OPTPRED: unexpected shape of {fn}")
+
+        def run(stmts, env):
+            for st in stmts:
+                if isinstance(st, ast.Return):
+                    return ev(st.value, env)
+                if isinstance(st, ast.If):
+                    r = run(st.body if truth(st.test, env) else st.orelse, env)
+                    if r is not None:
+                        return r
+            return None
+
+        for (an, bn), want in table.items():
+            res.instances += 1
+            res.nontrivial += 1
+            env = {"params": ps, ps[0]: an, ps[1]: bn}
+            got = run(f.node.body, env) or "None"
+            ok = got == want
+            res.ob(ok)
+            res.sample(f"{fn}({'None' if an else 'p'}, {'None' if bn else 'q'}) = {got} (expected {want})")
+            if not ok:
+                res.add(
+                    Finding("OPTPRED", B, f.lineno, fn, f"{'None' if an else 'p'},{'None' if bn else 'q'}",
+                            f"{fn}({'None' if an else 'p'}, {'None' if bn else 'q'}) returns {got}, expected {want} (None = unconditional): an unconditional configuration write merged with a "
+                            f"conditional one becomes conditional, the checker assumes the old value survives and accepts an out-of-bounds access")
+                )
+    res.floor = 8
+    return res
